@@ -144,11 +144,13 @@ def name_code(it, key):
 def get_node_parser(it, self, args, kwargs):
     """spec.get_node_parser(token): a call parser for that token (its node starts at the token), or None"""
     tok = args[0] if args else kwargs.get('token')
-    if it.ctx.choose(2, 'spec provides a parser') == 1:
-        return None
+    # the library's own spec classes always build a call parser (CallableSpec.get_node_parser); user subclasses
+    # returning None are outside the claim (A-DYN)
+    empty_ok = it.ctx.fresh_bool('contents_can_be_empty')
     return AbsVal(it.ctx.fresh_int('call_parser'), 'parser',
                   attrs={'span_start': it.getattr(tok, 'pos'), 'kind': 'call_parser', 'token': tok, 'spec': self,
-                         'may_eos': False})
+                         'may_eos': False},
+                  methods={'contents_can_be_empty': lambda it2, sf, a, k: empty_ok})
 
 
 SPEC_METHODS = {'get_node_parser': get_node_parser}
